@@ -46,10 +46,11 @@ int main(void)
     ABT_mutex h = (ABT_mutex)M;
     lp_ABTI_local = (ABTI_local *)&ESA;                                  /* the acting caller is A */
     int op = nondet_int(); VR_ASSUME(op >= 0 && op <= 3);
+    int var = nondet_int(); VR_ASSUME(var >= 0 && var <= 2);            /* API variant: plain / low,se / high,de */
     int r;
     if (op == 0 || op == 1 || op == 3) {                                 /* lock / trylock / spinlock */
         if (op == 0 || op == 3) VR_ASSUME(owner != 2);                   /* would block: O1 */
-        r = op == 0 ? ABT_mutex_lock(h) : op == 1 ? ABT_mutex_trylock(h) : ABT_mutex_spinlock(h);
+        r = op == 0 ? (var == 0 ? ABT_mutex_lock(h) : var == 1 ? ABT_mutex_lock_low(h) : ABT_mutex_lock_high(h)) : op == 1 ? ABT_mutex_trylock(h) : ABT_mutex_spinlock(h);
         if (owner == 2) {
             VR_ASSERT(r == ABT_ERR_MUTEX_LOCKED, "trylock by a non-owner fails while the owner holds it");
             VR_ASSERT(M->owner_id == idB && (long)M->nesting_cnt == depth && M->lock.val.val, "failed trylock changes nothing");
@@ -59,11 +60,12 @@ int main(void)
             VR_ASSERT(M->owner_id == idA && M->lock.val.val, "caller owns the mutex afterwards");
             VR_ASSERT((long)M->nesting_cnt == (owner == 1 ? depth + 1 : 0), "nesting depth counts re-locks exactly");
             if (owner == 1 && depth > 70000) VR_WITNESS("deep re-lock");
-            if (owner == 0) VR_WITNESS("first lock");
+            if (owner == 0) VR_WITNESS("first lock"); if (op == 0 && var == 2 && owner == 1) VR_WITNESS("re-lock through lock_high");
         }
     } else {                                                             /* unlock by the owner A */
         VR_ASSUME(owner == 1);
-        r = ABT_mutex_unlock(h);
+        r = var == 0 ? ABT_mutex_unlock(h) : var == 1 ? ABT_mutex_unlock_se(h) : ABT_mutex_unlock_de(h);
+        if (var == 1 && depth > 0) VR_WITNESS("inner unlock_se"); if (var == 2 && depth == 0) VR_WITNESS("outermost unlock_de");
         VR_ASSERT(r == ABT_SUCCESS, "unlock succeeds");
         if (depth > 0) { VR_ASSERT(M->owner_id == idA && M->lock.val.val && (long)M->nesting_cnt == depth - 1, "inner unlock only decrements: still owned and held"); if (depth > 70000) VR_WITNESS("deep unlock"); }
         else { VR_ASSERT(M->owner_id == 0 && M->lock.val.val == 0 && M->nesting_cnt == 0, "outermost unlock releases the mutex"); VR_WITNESS("outermost unlock"); }
